@@ -22,6 +22,10 @@ ASSUMPTIONS = [
     "tensors of depth 1-3 over shape 2 (3 for depth 1) per rank; leaf values kept in {0,1,2} by the driver",
     "start_pos shortcuts are only generated when legal (position whose coordinate is <= the coordinate sought)",
     "at most two live handles are part of the state",
+    "families with a non-zero leaf default: integer default 5 (read / reference only) and float default 0.5 (all writes); "
+    "the source of a fiber assignment through a handle is built with the destination's leaf default, because "
+    "f <<= g adopts g's default for the whole rank (explicit in Fiber.__ilshift__) - what that does to other points "
+    "is not judged",
 ]
 
 VMAX = 2
@@ -39,9 +43,10 @@ def build(init):
     S = St()
     S.depth, S.shape, S.via, S.poslevels = depth, shape, via, poslevels
     # optional 6th element: the tensor's leaf default (the fibers themselves are built with default 0);
-    # such families only read and take references (the value alphabet {0,1,2} is then all non-default)
+    # with the integer default 5 the families only read and take references (the value alphabet {0,1,2} is
+    # then all non-default); with the float default 0.5 the full alphabet of writes is used
     S.default = init[5] if len(init) > 5 else 0
-    S.readonly = S.default != 0
+    S.readonly = S.default != 0 and isinstance(S.default, int)
     ids = RANK_IDS[:depth]
     if spec is None:
         S.T = Tensor(rank_ids=list(ids), shape=list(shape), default=S.default)
@@ -119,6 +124,14 @@ def ops(S):
     return out
 
 
+def _put(S, pt, v):
+    """model write: a point holding the leaf default is not part of the content"""
+    if v == S.default:
+        S.model.pop(pt, None)
+    else:
+        S.model[pt] = v
+
+
 def _snap(T):
     return (rawtree(T.getRoot()), tuple(tuple(id(f) for f in rk.fibers) for rk in T.ranks))
 
@@ -178,12 +191,13 @@ def step(S, op):
                 V("getPayloadRef", "not-aliased", None, repr(r), "len:%d" % len(pt))
             if act.startswith("asg"):
                 g = ASSIGN[int(act[3:])]
-                r <<= Fiber(list(g[0]), list(g[1]))
+                # f <<= g adopts g's default for the whole rank (explicit in Fiber.__ilshift__): the source
+                # is built with the destination's leaf default
+                r <<= Fiber(list(g[0]), list(g[1]), default=S.default)
                 for q in [q for q in S.model if q[:len(pt)] == pt]:
                     del S.model[q]
                 for c, v in zip(*g):
-                    if v != 0:
-                        S.model[pt + (c,)] = v
+                    _put(S, pt + (c,), v)
                 # boxes under the prefix were replaced: older handles to them no longer alias the tree
                 S.handles = [(q, h) for q, h in S.handles if q[:len(pt)] != pt]
                 if _stored_at(T, pt) is not r:
@@ -198,19 +212,16 @@ def step(S, op):
                     S.model[pt] = 1
                 elif act == "set0":
                     r <<= 0
-                    S.model.pop(pt, None)
+                    _put(S, pt, 0)
                 elif act == "inc":
                     r += 1
-                    S.model[pt] = S.model.get(pt, S.default) + 1
+                    _put(S, pt, S.model.get(pt, S.default) + 1)
                 elif act == "mul2":
                     r *= 2
-                    S.model[pt] = S.model[pt] * 2
+                    _put(S, pt, S.model.get(pt, S.default) * 2)
                 elif act == "dec":
                     r -= 1
-                    if S.model[pt] == 1:
-                        del S.model[pt]
-                    else:
-                        S.model[pt] -= 1
+                    _put(S, pt, S.model.get(pt, S.default) - 1)
                 elif act == "keep":
                     S.handles = (S.handles + [(pt, r)])[-2:]
             if content(T.getRoot(), S.default) != S.model:
@@ -219,10 +230,7 @@ def step(S, op):
             _, i, val = op
             pt, h = S.handles[i]
             h <<= val
-            if val:
-                S.model[pt] = val
-            else:
-                S.model.pop(pt, None)
+            _put(S, pt, val)
             if content(T.getRoot(), S.default) != S.model:
                 V("handle-write", "content", dict(S.model), content(T.getRoot(), S.default))
             got = acc.getPayload(*pt)
@@ -340,6 +348,10 @@ def run(ctx):
     fams.append(("d2-2x2-default5", [(2, (2, 2), s, "T", (0, 1), 5) for s in d2e], None))
     d3e = [((None, None), (('1', '-'), None)), ((('-', '-'), None), (None, None))]
     fams.append(("d3-2x2x2-default5", [(3, (2, 2, 2), s, "T", (0,), 5) for s in d3e], 3 if q else 5))
+    # a float leaf default (boxes of immutable scalars are still boxes: a handle may not alias the rank's default)
+    fams.append(("d1-3-default0.5", [(1, (3,), s, "T", (0,), 0.5) for s in (None, ('1', '-', '0'))], 3 if q else 4))
+    fams.append(("d2-2x2-default0.5", [(2, (2, 2), s, "T", (0,), 0.5) for s in (None, (('1', '-'), None))],
+                 2 if q else 3))
     fams.append(("d3-2x2x2-empty-interior", [(3, (2, 2, 2), s, "T", ()) for s in d3e], 2 if q else 3))
     if q:
         fams.append(("d2-2x2-viaF", [(2, (2, 2), s, "F", (1,)) for s in d2[:2]], 3))
